@@ -65,7 +65,7 @@ Lemma sh_has_pend : forall cid l, sh_has cid l = true -> (1 <= pend l)%nat.
 Proof. intros cid l H. pose proof (pend_mark cid l H). lia. Qed.
 
 Ltac live_split := unfold live; prj; repeat split; auto.
-Ltac nlt := first [lia | (unfold lt; auto with arith; fail) | (cbn; lia) | (cbn; unfold lt; auto 20 with arith)].
+Ltac nlt := cbn [g_ph g_id gens consumers rejoin_needed length Nat.add]; rewrite ?pend_fresh; cbn [length Nat.add]; first [lia | (unfold lt; auto 20 with arith; fail)].
 
 (* ---------- each phase's owed event leads to the next phase ---------- *)
 Lemma step_fire : forall s id k, gens s = [] -> rejoin_d s = None -> rejoin_needed s = true -> live s -> In (id, k) (timers s) ->
@@ -89,7 +89,7 @@ Lemma step_meta : forall s gid rid, gens s = [mkGen gid (GMeta rid)] -> live s -
 Proof.
   intros s gid rid G L. destruct L as (L1 & L2 & L3 & L4). cbn [step]. unfold on_meta, with_gen, mu. rewrite G.
   cbn [take_first awaits g_ph]. rewrite Z.eqb_refl. unfold stop_pend, prepare_and_join, begin_shutdown, send_join, fresh_rid, add_gen.
-  ds s. cbn in G, L1, L2, L3, L4. subst. destruct grp; destruct cs as [|c cs']; prj; (split; [live_split|cbn [gens g_ph]; rewrite ?pend_fresh; nlt]).
+  ds s. cbn in G, L1, L2, L3, L4. subst. destruct grp; destruct cs as [|c cs']; prj; cbv [orb]; prj; (split; [live_split|cbn [gens g_ph]; rewrite ?pend_fresh; nlt]).
 Qed.
 
 Lemma step_cshut : forall s gid l cid, gens s = [mkGen gid (GPrepare l)] -> live s -> sh_has cid l = true ->
@@ -99,8 +99,8 @@ Proof.
   cbn [take_first gen_list g_ph]. rewrite Hh. cbn [gen_list g_ph g_id].
   pose proof (pend_mark cid l Hh) as PM. pose proof (sh_has_pend cid l Hh) as P1.
   destruct (sh_all_done (sh_mark_done cid l)).
-  - unfold after_prepare, stop_pend, send_join, fresh_rid, add_gen. ds s. cbn in G, L1, L2, L3, L4. subst. prj. split; [live_split|nlt].
-  - ds s. cbn in G, L1, L2, L3, L4. subst. prj. split; [live_split|nlt].
+  - unfold after_prepare, stop_pend, send_join, fresh_rid, add_gen. ds s. cbn in G, L1, L2, L3, L4. subst. prj. cbv [orb]. prj. split; [live_split|nlt].
+  - ds s. cbn in G, L1, L2, L3, L4. subst. prj. cbv [orb]. prj. split; [live_split|nlt].
 Qed.
 
 Lemma step_join : forall s gid rid gn mem role, gens s = [mkGen gid (GJoin rid)] -> live s -> role = 0 \/ role = 1 ->
@@ -108,7 +108,7 @@ Lemma step_join : forall s gid rid gn mem role, gens s = [mkGen gid (GJoin rid)]
 Proof.
   intros s gid rid gn' mem' role G L R. destruct L as (L1 & L2 & L3 & L4). cbn [step]. unfold on_join, with_gen, mu. rewrite G.
   cbn [take_first awaits g_ph]. rewrite Z.eqb_refl. unfold seq, upd, stop_pend, send_sync, fresh_rid, add_gen.
-  ds s. cbn in G, L1, L2, L3, L4. subst. destruct R as [-> | ->]; prj; (split; [live_split|nlt]).
+  ds s. cbn in G, L1, L2, L3, L4. subst. destruct R as [-> | ->]; prj; cbv [orb]; prj; (split; [live_split|nlt]).
 Qed.
 
 Lemma step_parts : forall s gid rid, gens s = [mkGen gid (GParts rid)] -> live s ->
@@ -116,7 +116,7 @@ Lemma step_parts : forall s gid rid, gens s = [mkGen gid (GParts rid)] -> live s
 Proof.
   intros s gid rid G L. destruct L as (L1 & L2 & L3 & L4). cbn [step]. unfold on_parts, with_gen, mu. rewrite G.
   cbn [take_first awaits g_ph]. rewrite Z.eqb_refl. unfold stop_pend, send_sync, fresh_rid, add_gen.
-  ds s. cbn in G, L1, L2, L3, L4. subst. prj. split; [live_split|nlt].
+  ds s. cbn in G, L1, L2, L3, L4. subst. prj. cbv [orb]. prj. split; [live_split|nlt].
 Qed.
 
 Lemma step_sync : forall s gid rid asg, gens s = [mkGen gid (GSync rid)] -> live s ->
@@ -126,15 +126,21 @@ Proof.
   intros s gid rid asg G L. destruct L as (L1 & L2 & L3 & L4). cbn [step]. unfold on_sync, with_gen. rewrite G.
   cbn [take_first awaits g_ph]. rewrite Z.eqb_refl.
   replace (stop_pend (set_gens [] s)) with false by (unfold stop_pend; ds s; cbn in *; subst; reflexivity).
-  rewrite !seq_fst. unfold upd at 1 2, gen_end. cbn [fst]. rewrite reset_hb_fst. unfold upd. cbn [fst].
+  cbv zeta. rewrite !seq_fst. unfold gen_end, upd. cbn [fst]. rewrite !reset_hb_fst.
   set (sA := set_rejoin_needed false (set_hb_running true (set_cur_assign asg (set_gens [] s)))).
   assert (X : exists cs', same_core (set_consumers cs' sA) (fst (on_join_complete asg sA))).
   { unfold on_join_complete. destruct (is_group sA); [|exists (consumers sA); cbn [fst]; ds s; frame].
     destruct (stop_requested sA); [exists (consumers sA); cbn [fst]; ds s; frame|].
     destruct (start_consumers_spec (group_by_topic asg) sA) as [A _]. eauto. }
   destruct X as (cs' & SC). unfold same_core in SC. destruct SC as (_&_&_&E4&E5&E6&E7&_&_&E10&_&E12&_&_&_&_&E17).
-  destruct (fst (on_join_complete asg sA)) eqn:EE. subst sA. ds s. cbn in *. subst.
-  repeat split; auto; try congruence. unfold mu. cbn. nlt.
+  set (sB := fst (on_join_complete asg sA)) in *. clearbody sB.
+  assert (F : start_d (set_rejoin_d None sB) = start_d s /\ stopping (set_rejoin_d None sB) = false /\ stop_requested (set_rejoin_d None sB) = false /\
+              escaped (set_rejoin_d None sB) = false /\ gens (set_rejoin_d None sB) = [] /\ rejoin_needed (set_rejoin_d None sB) = false /\
+              hb_running (set_rejoin_d None sB) = true).
+  { destruct sB. subst sA. ds s. cbn in *. subst. repeat split; auto. }
+  destruct F as (F1 & F2 & F3 & F4 & F5 & F6 & F7).
+  split; [unfold live; rewrite F1, F2, F3, F4; auto|]. split; [exact F5|]. split; [exact F6|]. split; [exact F7|].
+  unfold mu. rewrite F5, F6, G. cbn [g_ph]. lia.
 Qed.
 
 (* ---------- every owed event keeps the member live and strictly decreases the measure ---------- *)
@@ -172,10 +178,14 @@ Proof.
   - destruct (rejoin_needed s) eqn:Rn; [|lia].
     destruct (i_prog _ I L1 L2 L3 L4) as [X|[[X _]|X]]; [congruence|congruence|].
     destruct (timers s) as [|[id k] t]; [congruence|]. exists (EFire id). split; auto. exists id, k. split; auto. left; auto.
-  - destruct g as [gid ph]. cbn [g_ph] in *. destruct ph; eauto.
-    + destruct (not_all_done_has l (PL _ l (or_introl eq_refl) eq_refl)) as (cid & X). eauto.
-    + exists (EJoin rid (JOk 0 0 0)). eauto 6.
-    + exists (ESync rid (SOk [])). eauto.
+  - destruct g as [gid ph]. cbn [g_ph] in *. destruct ph as [rid|rid|l|rid|rid|rid].
+    + exists (ELookup rid LBroker). reflexivity.
+    + exists (EMeta rid ROk). reflexivity.
+    + assert (AD : sh_all_done l = false) by (apply (PL (mkGen gid (GPrepare l)) l); [rewrite G; left; reflexivity|reflexivity]).
+      destruct (not_all_done_has l AD) as (cid & X). exists (ECShut cid true). exists cid. auto.
+    + exists (EJoin rid (JOk 0 0 0)). exists 0, 0, 0. auto.
+    + exists (EParts rid POk). reflexivity.
+    + exists (ESync rid (SOk [])). exists []. reflexivity.
   - destruct S8 as [[X _]|(g0 & X & _)]; discriminate.
 Qed.
 
@@ -212,7 +222,7 @@ Lemma settles : forall grp es evs, let s := state_after grp evs in
   (prep_live s' -> (0 < mu s')%nat -> exists e, owed s' e).
 Proof.
   intros grp es evs s L O. destruct (settles_run grp es evs L O) as [L' B]. cbv zeta.
-  pose proof (reachable_Inv grp (evs ++ es)) as I'. split; [fold s; lia|]. split; [exact L'|]. split.
+  pose proof (reachable_Inv grp (evs ++ es)) as I'. split; [unfold s in *; lia|]. split; [exact L'|]. split.
   - intros NO PL. apply mu_zero_stable; auto. destruct (mu (state_after grp (evs ++ es))) eqn:M; auto.
     destruct (no_deadlock _ I' L' PL ltac:(lia)) as (e & X). exfalso. exact (NO e X).
   - intros PL M. apply no_deadlock; auto.
@@ -379,7 +389,7 @@ Proof.
     apply pl_prepare_and_join. apply (pl_frame (set_gens rest s)); [ds s; reflexivity|exact P1].
   - unfold on_join, with_gen. destruct (take_first _ (gens s)) as [[g rest]|] eqn:T; [|exact P]. pose proof (pl_rest _ _ _ _ T P) as P1.
     destruct r as [gn mem role|k]; [|apply pl_gsub; [apply gs_seq; [apply gs_rae|apply gs_gen_end]|exact P1]].
-    rewrite seq_fst. unfold upd at 1. cbn [fst]. cbv beta.
+    rewrite seq_fst. unfold upd. cbn [fst]. cbv beta.
     set (s1 := set_cur_assign [] (set_generation gn (set_member mem (set_gens rest s)))).
     assert (P2 : prep_live s1) by (apply (pl_frame (set_gens rest s)); [subst s1; destruct s; reflexivity|exact P1]). clearbody s1.
     destruct (stop_pend s1); [apply pl_gsub; [apply gs_gen_end|exact P2]|].
@@ -432,4 +442,22 @@ Proof.
   assert (G : forall s, prep_live s -> prep_live (fold_left (fun s e => fst (step s e)) evs s)).
   { induction evs as [|e evs IH]; intros s H; cbn [fold_left]; auto. apply IH. apply step_prep_live. exact H. }
   apply G. intros g l H. destruct grp; destruct H.
+Qed.
+
+(* ---------- the theorem ---------- *)
+Theorem settles_bounded : forall grp es evs, let s := state_after grp evs in
+  live s -> owed_all s es ->
+  let s' := state_after grp (evs ++ es) in
+  (length es <= mu s)%nat /\ (mu s <= 7 + length (consumers s) + length (shutting s))%nat /\ live s' /\
+  ((0 < mu s')%nat -> exists e, owed s' e) /\
+  (mu s' = 0%nat <-> (gens s' = [] /\ rejoin_needed s' = false)) /\
+  (mu s' = 0%nat -> hb_running s' = true).
+Proof.
+  intros grp es evs s L O. destruct (settles grp es evs L O) as (A & B & C & D). cbv zeta.
+  pose proof (reachable_prep_live grp (evs ++ es)) as PL. pose proof (reachable_Inv grp (evs ++ es)) as I'.
+  split; [exact A|]. split; [apply mu_bound|]. split; [exact B|]. split; [exact (D PL)|]. split.
+  - split.
+    + intros M. destruct (mu_zero_stable _ I' B M) as (X & Y & _). auto.
+    + intros [X Y]. unfold mu. rewrite X, Y. reflexivity.
+  - intros M. destruct (mu_zero_stable _ I' B M) as (_ & _ & Z). exact Z.
 Qed.
